@@ -346,6 +346,115 @@ class Facts:
         return env
 
 
+# ------------------------------------------------------------------------------------------------ propositional entailment
+def _props(e: ast.AST, out: set) -> None:
+    """Base propositions of a test: ('t', text) = text is truthy, ('n', text) = text is None."""
+    if isinstance(e, ast.Constant):
+        return
+    if isinstance(e, ast.UnaryOp) and isinstance(e.op, ast.Not):
+        _props(e.operand, out)
+        return
+    if isinstance(e, ast.BoolOp):
+        for v in e.values:
+            _props(v, out)
+        return
+    if isinstance(e, ast.Compare) and len(e.ops) == 1:
+        op, rhs = e.ops[0], e.comparators[0]
+        if isinstance(op, (ast.Is, ast.IsNot)) and isinstance(rhs, ast.Constant) and rhs.value is None:
+            out.add(('n', U(e.left)))
+            return
+        pos = {ast.Eq: '==', ast.NotEq: '==', ast.In: 'in', ast.NotIn: 'in', ast.Is: 'is', ast.IsNot: 'is'}.get(type(op))
+        if pos is not None:
+            l, r = U(e.left), U(rhs)
+            if pos == '==' and r < l:
+                l, r = r, l
+            out.add(('t', f'{l} {pos} {r}'))
+            return
+    out.add(('t', U(e)))
+
+
+def _holds(e: ast.AST, val: dict) -> bool:
+    if isinstance(e, ast.Constant):
+        return bool(e.value)
+    if isinstance(e, ast.UnaryOp) and isinstance(e.op, ast.Not):
+        return not _holds(e.operand, val)
+    if isinstance(e, ast.BoolOp):
+        rs = [_holds(v, val) for v in e.values]
+        return all(rs) if isinstance(e.op, ast.And) else any(rs)
+    if isinstance(e, ast.Compare) and len(e.ops) == 1:
+        op, rhs = e.ops[0], e.comparators[0]
+        if isinstance(op, (ast.Is, ast.IsNot)) and isinstance(rhs, ast.Constant) and rhs.value is None:
+            r = val[('n', U(e.left))]
+            return r if isinstance(op, ast.Is) else (not r)
+        pos = {ast.Eq: '==', ast.NotEq: '==', ast.In: 'in', ast.NotIn: 'in', ast.Is: 'is', ast.IsNot: 'is'}.get(type(op))
+        if pos is not None:
+            l, r = U(e.left), U(rhs)
+            if pos == '==' and r < l:
+                l, r = r, l
+            v = val[('t', f'{l} {pos} {r}')]
+            return v if isinstance(op, (ast.Eq, ast.In, ast.Is)) else (not v)
+    return val[('t', U(e))]
+
+
+def entails(env: dict, guard: ast.AST, max_props: int = 12) -> bool:
+    """Do the facts in *env* (atoms and compound tests with a recorded truth) entail *guard*, by enumeration of the base propositions?"""
+    import itertools
+
+    facts: list[tuple[ast.AST, str]] = []
+    props: set = set()
+    _props(guard, props)
+    for text, v in env.items():
+        if text.startswith('#'):
+            continue
+        try:
+            e = ast.parse(text, mode='eval').body
+        except SyntaxError:
+            continue
+        facts.append((e, v))
+        _props(e, props)
+        if v in ('N', 'NN', 'T', 'F', 'Ty'):
+            props.add(('n', text))
+    plist = sorted(props)
+    if len(plist) > max_props:
+        return False
+    texts = {t for k, t in plist}
+    for bits in itertools.product((False, True), repeat=len(plist)):
+        val = dict(zip(plist, bits))
+        ok = True
+        for t in texts:  # None is falsy
+            if val.get(('n', t)) and val.get(('t', t)):
+                ok = False
+                break
+        if not ok:
+            continue
+        for e, v in facts:
+            try:
+                h = _holds(e, val)
+            except KeyError:
+                continue
+            isnone = val.get(('n', U(e)))
+            if v in ('T', 'Ty') and not h:
+                ok = False
+            elif v in ('F', 'Fy') and h:
+                ok = False
+            elif v == 'N' and (h or isnone is False):
+                ok = False
+            elif v == 'NN' and isnone is True:
+                ok = False
+            if v in ('T', 'F', 'Ty') and isnone is True:
+                ok = False
+            if not ok:
+                break
+        if not ok:
+            continue
+        try:
+            if not _holds(guard, val):
+                return False
+        except KeyError:
+            return False
+    return True
+
+
 def names_tracker(*names: str) -> Callable[[str], bool]:
     s = set(names)
     return lambda a: a in s
